@@ -16,6 +16,7 @@ import (
 	"fmt"
 	"os"
 	osexec "os/exec"
+	"path/filepath"
 	"strings"
 	"time"
 
@@ -36,6 +37,80 @@ type segOut struct {
 	Reissued []string
 	Live     string // "1", or the index of the first operation after which a fresh store saw another state than the live one
 	Cap      int
+}
+
+// ---- how the storage directory is laid out (the ENVIRONMENT of a history) ---------------------------------
+//
+//	plain       <root>/store
+//	pathlink    the storage path itself is a symbolic link to a directory elsewhere
+//	maillink    <path>/mail is a symbolic link to a directory elsewhere (made before the first file.New)
+//	bucketlink  between two lifetimes (at every reopen / restart) each first-level hash directory that is a real
+//	            directory is moved elsewhere and replaced by a symbolic link
+//	trailing    the path is given with a trailing slash      dotdot  the path contains ".."
+//	relative    the path is relative to the working directory
+var (
+	layout     = "plain"
+	layoutRoot string
+)
+
+func layoutSetup(root, lay string) string {
+	layout, layoutRoot = lay, root
+	os.Setenv("VERIF_C10_LAYOUT", lay)
+	os.Setenv("VERIF_C10_ROOT", root)
+	store := filepath.Join(root, "store")
+	switch lay {
+	case "pathlink":
+		real := filepath.Join(root, "volume")
+		_ = os.MkdirAll(real, 0o770)
+		_ = os.Symlink(real, store)
+		return store
+	case "maillink":
+		_ = os.MkdirAll(store, 0o770)
+		real := filepath.Join(root, "mailvolume")
+		_ = os.MkdirAll(real, 0o770)
+		_ = os.Symlink(real, filepath.Join(store, "mail"))
+		return store
+	case "trailing":
+		_ = os.MkdirAll(store, 0o770)
+		return store + "/"
+	case "dotdot":
+		_ = os.MkdirAll(filepath.Join(store, "sub"), 0o770)
+		return store + "/sub/../"
+	case "relative":
+		_ = os.MkdirAll(store, 0o770)
+		if wd, err := os.Getwd(); err == nil {
+			if rel, err := filepath.Rel(wd, store); err == nil {
+				return rel
+			}
+		}
+		return store
+	}
+	_ = os.MkdirAll(store, 0o770)
+	return store
+}
+
+// betweenLifetimes is what the operator does while the server is down (layout bucketlink).
+func betweenLifetimes(path string) {
+	if layout != "bucketlink" {
+		return
+	}
+	mail := filepath.Join(path, "mail")
+	ents, err := os.ReadDir(mail)
+	if err != nil {
+		return
+	}
+	vol := filepath.Join(layoutRoot, "buckets")
+	_ = os.MkdirAll(vol, 0o770)
+	for _, e := range ents {
+		p := filepath.Join(mail, e.Name())
+		if fi, err := os.Lstat(p); err == nil && fi.IsDir() {
+			dst, _ := os.MkdirTemp(vol, e.Name()+"-")
+			_ = os.Remove(dst)
+			if os.Rename(p, dst) == nil {
+				_ = os.Symlink(dst, p)
+			}
+		}
+	}
 }
 
 // runSegment runs ops (no X inside) on dir in this process.
@@ -64,6 +139,7 @@ func runSegment(dir string, cap int, tab [][]string, ops []fsd.Op) segOut {
 			if o.Kind == "C" {
 				s.Cap = o.Rep
 			}
+			betweenLifetimes(dir)
 			s.Reopen()
 			after := fresh()
 			out.Res = append(out.Res, "-")
@@ -91,6 +167,9 @@ func runSegment(dir string, cap int, tab [][]string, ops []fsd.Op) segOut {
 func segmentMain() {
 	// segment <dir> <cap> <tabfile> <ops>
 	dir, cap, tabf, opsf := os.Args[2], vh.AtoI(os.Args[3]), os.Args[4], os.Args[5]
+	if l := os.Getenv("VERIF_C10_LAYOUT"); l != "" {
+		layout, layoutRoot = l, os.Getenv("VERIF_C10_ROOT")
+	}
 	var tab [][]string
 	if b, err := os.ReadFile(tabf); err == nil {
 		_ = json.Unmarshal(b, &tab)
@@ -277,7 +356,13 @@ func runHist(dir string, cap int, opsField string, forceProc bool) (h histOut, e
 		if len(segs) == 1 && !forceProc {
 			out = runSegment(dir, cap, tab, fsd.ParseOps(opsf))
 		} else {
-			tabf := dir + ".tab.json"
+			if i > 0 {
+				betweenLifetimes(dir)
+			}
+			tabf := filepath.Join(layoutRoot, "tab.json")
+			if layoutRoot == "" {
+				tabf = strings.TrimRight(dir, "/") + ".tab.json"
+			}
 			b, _ := json.Marshal(tab)
 			_ = os.WriteFile(tabf, b, 0o600)
 			cmd := osexec.Command(os.Args[0], "segment", dir, vh.I(cap), tabf, opsf)
@@ -329,8 +414,13 @@ func exec(kind string, in []string) []string {
 	cap := vh.AtoI(in[0])
 	switch kind {
 	case "hist":
-		dir := fsd.Scratch("c10")
-		defer os.RemoveAll(dir)
+		root := fsd.Scratch("c10")
+		defer os.RemoveAll(root)
+		lay := "plain"
+		if len(in) > 3 {
+			lay = in[3]
+		}
+		dir := layoutSetup(root, lay)
 		h, e := runHist(dir, cap, in[2], false)
 		if e != nil {
 			return e
@@ -344,6 +434,8 @@ func exec(kind string, in []string) []string {
 	case "conc":
 		return concCase(cap, vh.AtoI(in[2]), vh.AtoI(in[3]), vh.AtoI(in[4]))
 	case "reissue":
+		layout, layoutRoot = "plain", ""
+		os.Setenv("VERIF_C10_LAYOUT", "plain")
 		// deliver, remove, REAL restart, deliver — both processes within one wall-clock second (the id
 		// is second + counter, the counter restarts at 0000): retried when the second rolled over
 		var h histOut
